@@ -407,6 +407,9 @@ class Gen:
             o = {"op": kind, "obj": s, "idx": idx, "flag": flag,
                  "spks": [self.r.randrange(6) for _ in range(n)],
                  "values": [self.r.choice([1000, 2000, 3000, 50000]) + self.r.randrange(3) for _ in range(n)]}
+            if last and last[-1] == s and self.r.random() < 0.6:
+                # the caller edits its own argument lists in place and passes the same objects again
+                o["reuse"] = self.r.choice([True, True, "script"])
         elif kind == "sighash_segwit":
             o = {"op": kind, "obj": s, "idx": idx, "flag": self.r.choice([1, 2, 3, 0x81]), "spk": self.r.randrange(6),
                  "value": self.r.choice([1000, 2000, 70000])}
@@ -458,6 +461,10 @@ class Gen:
         if c:
             self.add({"op": "tx_txid", "obj": self.r.choice(c)})
 
+    def q_native(self):
+        self.add({"op": "native", "fn": self.r.choice(["recoverable", "recoverable", "ecdsa", "pubkey", "schnorr", "xonly", "tweak"]),
+                  "key": self.r.randrange(1, 6), "msg": self.r.randrange(1, 6)})
+
     TABLE = [
         ("c_tx_default", 4), ("c_tx_new", 3), ("c_witness_default", 2), ("c_witness_new", 1), ("c_scope_default", 4),
         ("c_psbt_default", 1), ("c_ad_default", 2), ("c_bytearray", 2), ("c_hd", 2), ("c_key", 2), ("c_desc", 2),
@@ -467,7 +474,7 @@ class Gen:
         ("f_ad_branch", 1),
         ("m_tx", 4), ("m_unknown", 5), ("m_witness", 2), ("m_ad", 2), ("m_bytearray", 1), ("m_sign", 2),
         ("q_serialize", 3), ("q_sighash", 6), ("q_psbt_sighash", 2), ("q_fee", 1), ("q_mnemonic", 3), ("q_hd", 1),
-        ("q_desc", 2), ("q_txid", 1),
+        ("q_desc", 2), ("q_txid", 1), ("q_native", 3),
     ]
 
     def history(self, n):
@@ -509,6 +516,19 @@ def directed():
             {"op": "sighash_taproot", "obj": "t", "idx": 0, "flag": 0, "spks": [1, 1], "values": [1000, 2000]},
             {"op": "sighash_taproot", "obj": "t", "idx": 0, "flag": 0, "spks": [1, 1], "values": [3000, 4000]},
             {"op": "sighash_taproot", "obj": "t", "idx": 1, "flag": 1, "spks": [1, 5], "values": [3000, 4000]}]),
+        ("sighash_taproot twice with the caller's own lists edited in place (Transaction)", [
+            {"op": "tx_new", "dst": "t", "version": 2, "vin": [1, 2], "vout": [3], "locktime": 0},
+            {"op": "sighash_taproot", "obj": "t", "idx": 0, "flag": 0, "spks": [1, 1], "values": [1000, 2000]},
+            {"op": "sighash_taproot", "obj": "t", "idx": 0, "flag": 0, "spks": [1, 1], "values": [1000, 45000], "reuse": True},
+            {"op": "sighash_taproot", "obj": "t", "idx": 0, "flag": 0, "spks": [1, 5], "values": [1000, 45000], "reuse": True},
+            {"op": "sighash_taproot", "obj": "t", "idx": 0, "flag": 0, "spks": [2, 5], "values": [1000, 45000], "reuse": "script"}]),
+        ("binding calls with out-buffers, then unrelated serialisations", [
+            {"op": "native", "fn": "recoverable", "key": 1, "msg": 1}, {"op": "native", "fn": "recoverable", "key": 3, "msg": 3},
+            {"op": "native", "fn": "recoverable", "key": 1, "msg": 1},
+            {"op": "tx_default", "dst": "a"}, {"op": "serialize", "obj": "a"},
+            {"op": "witness_default", "dst": "w"}, {"op": "serialize", "obj": "w"},
+            {"op": "native", "fn": "xonly", "key": 2, "msg": 1}, {"op": "native", "fn": "pubkey", "key": 2, "msg": 1},
+            {"op": "serialize", "obj": "a"}]),
         ("D29 sighash_taproot twice with other values (PSBTView)", [
             {"op": "psbt_build", "dst": "p", "seed": 1, "kinds": ["tr", "wpkh"]}, {"op": "view_of", "src": "p", "dst": "v"},
             {"op": "sighash_taproot", "obj": "v", "idx": 0, "flag": 0, "spks": [1, 1], "values": [1000, 2000]},
